@@ -2866,6 +2866,14 @@ static ASTNode *parse_statement(Stage1Parser *p) {
                 return NULL;
             }
 
+            /* unsafe { unsafe { ... recurses through parse_statement only: same depth guard as blocks */
+            if (++p->recursion_depth > MAX_RECURSION_DEPTH) {
+                parser_error(p, line, column, "Error at line %d, column %d: Block recursion depth exceeded maximum (%d). Possible infinite recursion or extremely nested blocks.\n",
+                        line, column, MAX_RECURSION_DEPTH);
+                p->recursion_depth--;
+                return NULL;
+            }
+
             /* Parse statements in the unsafe block */
             int capacity = 8;
             int count = 0;
@@ -2886,7 +2894,9 @@ static ASTNode *parse_statement(Stage1Parser *p) {
                 }
             }
 
-            if (!expect(p, TOKEN_RBRACE, "Expected '}' after unsafe block")) {
+p->recursion_depth--;
+
+                        if (!expect(p, TOKEN_RBRACE, "Expected '}' after unsafe block")) {
                 free(statements);
                 return NULL;
             }
